@@ -57,6 +57,19 @@ class VErr(Exception):
         return (VErr, (self.msg,))
 
 
+class LockErr(Exception):
+    """An error whose payload cannot be pickled (pickling a lock raises TypeError): redun records
+    such errors as a generic Exception(repr(error)) but must still raise the original one."""
+
+    def __init__(self, msg=""):
+        import threading
+
+        super().__init__(msg, threading.Lock())
+
+    def __str__(self):
+        return str(self.args[0])
+
+
 NT = {"Point": Point, "Triple": Triple}
 DC = {"Rec": Rec, "RecNI": RecNI, "FrozenRec": FrozenRec, "FrozenNI": FrozenNI}
 SUB = {"MyList": MyList, "MyDict": MyDict}
